@@ -497,4 +497,5 @@ def run(ck, facts, tier):
                     nxt.append(h)
         frontier = nxt
     exprwalk.run(ck, facts, "C09.staging-predicate", only=lambda f: f.path in near or f.root in near)
+    exprwalk.run_gating(ck, facts, "C09.staging-gating", only=lambda f: f.path in near or f.root in near)
     ck.not_decided("equality of the outputs of a staged program and its hand expansion; `f!(args)` = splice of `f(args)` as behaviour")
